@@ -735,6 +735,9 @@ struct SteerState {
     pct: bool,
     change_points: Vec<usize>,
     steps: usize,
+    /// systematic mode: the first choices are dictated by the script, then the first candidate is taken
+    script: Option<Vec<usize>>,
+    choices: Vec<(usize, usize)>,
 }
 
 thread_local! {
@@ -757,6 +760,8 @@ impl Steer {
                 pct,
                 change_points,
                 steps: 0,
+                script: None,
+                choices: Vec::new(),
             }),
             cv: Condvar::new(),
         })
@@ -770,7 +775,12 @@ impl Steer {
             return;
         }
         let cands: Vec<usize> = st.waiting.keys().cloned().collect();
-        let pick = if st.pct {
+        let pick = if let Some(script) = &st.script {
+            let step = st.choices.len();
+            let idx = if step < script.len() { script[step].min(cands.len() - 1) } else { 0 };
+            st.choices.push((idx, cands.len()));
+            cands[idx]
+        } else if st.pct {
             st.steps += 1;
             if st.change_points.contains(&st.steps) {
                 // lower the priority of the currently highest thread
@@ -840,6 +850,14 @@ impl Steer {
     pub fn trace_len(&self) -> usize {
         self.st.lock().unwrap().trace.len()
     }
+    pub fn with_script(seed: u64, n: usize, script: Vec<usize>) -> Arc<Self> {
+        let s = Self::new(seed, n, false);
+        s.st.lock().unwrap().script = Some(script);
+        s
+    }
+    pub fn choices(&self) -> Vec<(usize, usize)> {
+        self.st.lock().unwrap().choices.clone()
+    }
 }
 
 #[derive(Clone, Debug)]
@@ -859,7 +877,7 @@ pub fn run_conc(args: &Args, rep: &mut Report) {
             1 => "steered-pct",
             _ => "steered-random",
         };
-        let scenario = *rng.pick(&["identical-puts", "identical-puts", "overlap-evict", "mixed"]);
+        let scenario = *rng.pick(&["identical-puts", "identical-puts", "overlap-evict", "mixed", "damaged-reopen-gets"]);
         let nk = if scenario == "identical-puts" { 1 } else { rng.urange(1, 3) };
         let keys: Arc<Vec<TruthKey>> = Arc::new(
             (0..nk)
@@ -898,6 +916,14 @@ pub fn run_conc(args: &Args, rep: &mut Report) {
                 let a = rng.usize_below(t.n());
                 let b = rng.urange(a + 1, t.n());
                 match scenario {
+                    "damaged-reopen-gets" => {
+                        // every thread first reads the (damaged) shared range, then anything
+                        if oi == 0 || rng.chance(2, 3) {
+                            ops.push(COp::Get(shared_put.0, shared_put.1, shared_put.2));
+                        } else {
+                            ops.push(COp::Get(ki, a, b));
+                        }
+                    },
                     "identical-puts" => {
                         if oi == 0 || rng.chance(1, 2) {
                             ops.push(COp::Put(shared_put.0, shared_put.1, shared_put.2));
@@ -927,6 +953,37 @@ pub fn run_conc(args: &Args, rep: &mut Report) {
         }
         let dir = tempfile::tempdir().unwrap();
         let root = dir.path().to_path_buf();
+        if scenario == "damaged-reopen-gets" {
+            // entries written by an earlier run, one of them bit-damaged (same length) while closed
+            if let Ok(c0) = DiskCache::initialize(&cfg(&root, cap)) {
+                let t = &keys[shared_put.0];
+                let (o, d) = t.slice(shared_put.1, shared_put.2);
+                let _ = c0.put(&t.key, &ChunkRange { start: shared_put.1 as u32, end: shared_put.2 as u32 }, &o, d);
+                for (ki, t) in keys.iter().enumerate() {
+                    if ki != shared_put.0 {
+                        let (o, d) = t.slice(0, t.n());
+                        let _ = c0.put(&t.key, &ChunkRange { start: 0, end: t.n() as u32 }, &o, d);
+                    }
+                }
+            }
+            let files = walk_cache_files(&root);
+            // damage the file of the shared range: it is the one whose name encodes that range
+            for (f, _) in &files {
+                let name = f.file_name().unwrap().to_string_lossy().to_string();
+                if let Some((a, b, _, _)) = parse_item_name(&name) {
+                    if a as usize == shared_put.1 && b as usize == shared_put.2 {
+                        if let Ok(mut bytes) = std::fs::read(f) {
+                            if rng.chance(3, 4) {
+                                let hl = (u32::from_le_bytes(bytes[0..4].try_into().unwrap()) as usize + 1) * 4;
+                                let p = rng.urange(hl.min(bytes.len() - 1), bytes.len() - 1);
+                                bytes[p] ^= 1 << rng.below(8);
+                                let _ = std::fs::write(f, &bytes);
+                            }
+                        }
+                    }
+                }
+            }
+        }
         let cache = match DiskCache::initialize(&cfg(&root, cap)) {
             Ok(c) => Arc::new(c),
             Err(_) => continue,
@@ -1130,4 +1187,180 @@ pub fn run_conc(args: &Args, rep: &mut Report) {
     }
     rep.count("C13", "hook_points_crossed", POINT_HITS.load(Ordering::Relaxed));
     rep.count("C12", "hook_points_crossed", POINT_HITS.load(Ordering::Relaxed));
+}
+
+// ------------------------------------------------------------------------------------------------
+// systematic enumeration of schedules for small concurrent cases (C13, C12)
+
+/// next script in depth-first order, or None when the space is exhausted
+fn next_script(choices: &[(usize, usize)]) -> Option<Vec<usize>> {
+    let mut i = choices.len();
+    while i > 0 {
+        i -= 1;
+        if choices[i].0 + 1 < choices[i].1 {
+            let mut s: Vec<usize> = choices[..i].iter().map(|c| c.0).collect();
+            s.push(choices[i].0 + 1);
+            return Some(s);
+        }
+    }
+    None
+}
+
+pub fn run_enum(args: &Args, rep: &mut Report) {
+    let max_schedules = args.usize("max-schedules", 3000);
+    for (k, mut rng) in case_iter(args, 0xE9C3, 6) {
+        // small scenarios: 2..3 threads, one or two operations each
+        let nthreads = if rng.chance(2, 3) { 2 } else { 3 };
+        let scenario = *rng.pick(&["identical-puts", "identical-puts", "nested-puts", "put-vs-get", "evict-race"]);
+        let nchunks = rng.urange(3, 6);
+        let t = TruthKey::gen(&mut rng, nchunks, 40);
+        let t2 = TruthKey::gen(&mut rng, 3, 40);
+        let keys = Arc::new(vec![t.clone(), t2.clone()]);
+        let a = rng.usize_below(t.n() - 1);
+        let b = rng.urange(a + 1, t.n());
+        let plans: Vec<Vec<COp>> = (0..nthreads)
+            .map(|ti| match scenario {
+                "identical-puts" => vec![COp::Put(0, a, b)],
+                "nested-puts" => {
+                    if ti == 0 {
+                        vec![COp::Put(0, 0, t.n())]
+                    } else {
+                        vec![COp::Put(0, a, b)]
+                    }
+                },
+                "put-vs-get" => {
+                    if ti == 0 {
+                        vec![COp::Put(0, a, b)]
+                    } else {
+                        vec![COp::Put(0, a, b), COp::Get(0, a, b)]
+                    }
+                },
+                _ => {
+                    if ti == 0 {
+                        vec![COp::Put(0, a, b)]
+                    } else {
+                        vec![COp::Put(1, 0, t2.n())]
+                    }
+                },
+            })
+            .collect();
+        let cap = match scenario {
+            "evict-race" => t.item_len(a, b).max(t2.item_len(0, t2.n())) + 8,
+            _ => 100_000,
+        };
+        let mut script: Option<Vec<usize>> = Some(Vec::new());
+        let mut n_sched = 0usize;
+        let mut exhausted = false;
+        let mut distinct: HashSet<u64> = HashSet::new();
+        while let Some(sc) = script.take() {
+            if n_sched >= max_schedules || args.out_of_time() {
+                break;
+            }
+            n_sched += 1;
+            let dir = tempfile::tempdir().unwrap();
+            let root = dir.path().to_path_buf();
+            let Ok(cache) = DiskCache::initialize(&cfg(&root, cap)) else { break };
+            let cache = Arc::new(cache);
+            // evict-race: pre-fill so that the puts must evict
+            if scenario == "evict-race" {
+                let (o, d) = t2.slice(0, 1);
+                let _ = cache.put(&t2.key, &ChunkRange { start: 0, end: 1 }, &o, d);
+            }
+            let steer = Steer::with_script(1, nthreads, sc.clone());
+            {
+                let s2 = steer.clone();
+                utils::verif::set_point_callback(Some(Arc::new(move |name: &'static str| {
+                    if name.starts_with("cc.") {
+                        POINT_HITS.fetch_add(1, Ordering::Relaxed);
+                        s2.point(name);
+                    }
+                })));
+            }
+            let viol: Arc<Mutex<Vec<(String, String, &'static str)>>> = Arc::new(Mutex::new(Vec::new()));
+            let mut hs = Vec::new();
+            for (tid, ops) in plans.iter().cloned().enumerate() {
+                let (cache, keys, steer, viol) = (cache.clone(), keys.clone(), steer.clone(), viol.clone());
+                hs.push(std::thread::spawn(move || {
+                    steer.enter(tid);
+                    let r = xvcommon::catch(|| {
+                        for op in &ops {
+                            match op {
+                                COp::Put(ki, a, b) => {
+                                    let t = &keys[*ki];
+                                    let (o, d) = t.slice(*a, *b);
+                                    if cache.put(&t.key, &ChunkRange { start: *a as u32, end: *b as u32 }, &o, d).is_ok() {
+                                        let tb = cache.total_bytes().unwrap_or(0);
+                                        if tb > cap {
+                                            viol.lock().unwrap().push(("acct-over-capacity".into(), format!("total_bytes {tb} > capacity {cap} after a put returned"), "C13"));
+                                        }
+                                    }
+                                },
+                                COp::Get(ki, a, b) => {
+                                    let t = &keys[*ki];
+                                    let r = cache.get(&t.key, &ChunkRange { start: *a as u32, end: *b as u32 });
+                                    if let Err((s, m)) = judge_get(t, *a, *b, &r) {
+                                        viol.lock().unwrap().push((s, m, "C12"));
+                                    }
+                                },
+                            }
+                        }
+                    });
+                    steer.leave();
+                    if let Err(p) = r {
+                        viol.lock().unwrap().push(("cache-panic-concurrent".into(), p, "C12"));
+                    }
+                }));
+            }
+            for h in hs {
+                let _ = h.join();
+            }
+            utils::verif::set_point_callback(None);
+            let w = |what: &str| {
+                let mut w = witness_base(args, "cache_enum", k);
+                w["scenario"] = json!(scenario);
+                w["threads"] = json!(nthreads);
+                w["script"] = json!(sc);
+                w["grant_sequence"] = steer.trace_json();
+                w["what"] = json!(what);
+                w
+            };
+            for (s, m, p) in viol.lock().unwrap().iter() {
+                rep.violation(p, s, m, w(m));
+            }
+            let q = xvcommon::catch(|| -> Result<(), Fail> {
+                judge_accounting(&cache, &root, cap, false, true)?;
+                judge_accounting(&cache, &root, cap, true, true)?;
+                Ok(())
+            });
+            match q {
+                Ok(Ok(())) => {},
+                Ok(Err((s, m))) => rep.violation("C13", &s, &m, w(&m)),
+                Err(p) => rep.violation("C12", "cache-panic-concurrent", &p, w(&p)),
+            }
+            distinct.insert(steer.trace_hash());
+            for p in ["C12", "C13"] {
+                rep.case(p, Some(format!("enum|{scenario}|t{nthreads}|{:016x}", steer.trace_hash())));
+            }
+            if n_sched == 1 {
+                for p in ["C12", "C13"] {
+                    if rep.wants_sample(p) {
+                        rep.sample(p, w("sample (first schedule of an enumerated scenario)"));
+                    }
+                }
+            }
+            script = next_script(&steer.choices());
+            if script.is_none() {
+                exhausted = true;
+            }
+        }
+        rep.count("C13", "enumerated_schedules", n_sched as u64);
+        rep.count("C13", "enumerated_distinct_grant_sequences", distinct.len() as u64);
+        if exhausted {
+            rep.count("C13", "scenarios_enumerated_exhaustively", 1);
+            rep.count("C13", &format!("exhaustive_{scenario}_t{nthreads}"), 1);
+        } else {
+            rep.count("C13", "scenarios_enumeration_truncated", 1);
+        }
+    }
+    rep.count("C13", "hook_points_crossed", POINT_HITS.load(Ordering::Relaxed));
 }
